@@ -6,6 +6,7 @@ package hx
 // jump the clock across an expiry).  A profile biases the operation mix per property.
 
 import (
+	"net/url"
 	"fmt"
 	"strings"
 	"testing"
@@ -284,7 +285,10 @@ func (g *gen) next() HOp {
 		op.Auth = g.auth(t.client)
 		op.Redirect = t.redirect
 		if r.Chance(p.Bad) {
-			op.Redirect = Pick(r, []string{"", "https://evil.example/cb", clientRedirect(t.client) + "/", strings.ToUpper(clientRedirect(t.client))})
+			cr := clientRedirect(t.client)
+			op.Redirect = Pick(r, []string{"", "https://evil.example/cb", cr + "/", strings.ToUpper(cr),
+				// the same URI under another encoding: still a different string
+				strings.Replace(cr, "/cb", "/c%62", 1), url.QueryEscape(cr), strings.Replace(cr, "example", "ex%61mple", 1)})
 		} else if op.Redirect == "" && r.Chance(30) {
 			op.Redirect = clientRedirect(t.client)
 		}
@@ -322,6 +326,24 @@ func (g *gen) next() HOp {
 		if r.Chance(p.Smuggle) {
 			op.Smuggled = []string{"admin", "photos"}
 		}
+		if r.Chance(8) {
+			// impersonation attempt: another public client identifies itself in the Basic header and names the code's
+			// owner in the client_id parameter; everything else about the request is right
+			var pubs []int
+			for k, cl := range g.h.Clients {
+				if k != t.client && cl.Public && hasStr(cl.Grants, "authorization_code") {
+					pubs = append(pubs, k)
+				}
+			}
+			if len(pubs) > 0 {
+				op.Auth, op.PublicBasic, op.ClaimedClient = Pick(r, pubs), true, t.client+1
+				op.Tok = HTok{Ref: i}
+				op.Redirect, op.Verifier = t.redirect, t.verifier
+				if op.Redirect == "" {
+					op.Redirect = clientRedirect(t.client)
+				}
+			}
+		}
 		return op
 	case pick(p.WRefresh):
 		i := g.pickTok("refresh", func(t *gTok) bool { return !t.used || r.Chance(40) })
@@ -337,6 +359,18 @@ func (g *gen) next() HOp {
 			owner = g.toks[i].client
 		}
 		op.Auth = g.auth(owner)
+		if i >= 0 && g.toks[i].kind == "refresh" && g.toks[i].used && r.Chance(25) {
+			// an exchanged refresh token replayed by another registered client that may use the grant
+			var others []int
+			for k, cl := range g.h.Clients {
+				if k != owner && hasStr(cl.Grants, "refresh_token") {
+					others = append(others, k)
+				}
+			}
+			if len(others) > 0 {
+				op.Auth = Pick(r, others)
+			}
+		}
 		if r.Chance(p.Bad / 3) {
 			op.Tok.Tamper = true
 		}
@@ -627,6 +661,9 @@ func genHistory(t *testing.T, r *RNG, p *Profile) (*HHistory, []HObs) {
 		n := p.MinOps + r.Intn(p.MaxOps-p.MinOps+1)
 		for k := 0; k < n; k++ {
 			op := g.next()
+			if (op.Kind == "redeem" || op.Kind == "refresh" || op.Kind == "device_poll" || op.Kind == "revoke") && op.Auth >= 0 && op.Auth < len(g.h.Clients) && g.h.Clients[op.Auth].Public && r.Chance(30) {
+				op.PublicBasic = true
+			}
 			if op.Kind == "redeem" || op.Kind == "refresh" || op.Kind == "device_poll" {
 				// the token's owner named in the body while another client authenticates
 				if op.Tok.Ref >= 0 && op.Tok.Ref < len(g.toks) && op.Auth >= 0 && op.Auth != g.toks[op.Tok.Ref].client && r.Chance(60) {
@@ -745,4 +782,14 @@ func (g *gen) randLife(c *HConfig) map[string]int64 {
 		}
 	}
 	return m
+}
+
+
+func hasStr(l []string, x string) bool {
+	for _, y := range l {
+		if y == x {
+			return true
+		}
+	}
+	return false
 }
